@@ -14,6 +14,14 @@ RULE = ("structured generator over degree 1..7 x knot-vector kind {uniform, repe
         "least one interior knot (basis/span families) ; distinct by case hash")
 ASSUMPTIONS = ["floating point rounding below 1e-9 is not observable"]
 THEOREM_NOTES = "see coq/Props/C03.v; [G] = all degrees / knot vectors"
+LEVEL_TEXT = ("proof (Coq), general in degree, knot vector, multiplicities and parameter unless noted: partition of unity, non-negativity, strict "
+              "positivity in the open span; A2.2 = Cox-de Boor recursion; A2.4 (single function) = Cox-de Boor recursion incl. the end convention; "
+              "A2.5 = Eq. 2.9 derivative recursion; linear span search specification and uniqueness of the span; binary search = linear search for "
+              "every parameter u >= U_p with fuel sufficiency; check() specification; normalize affine and monotone; generate produces valid clamped "
+              "knot vectors for every (degree, count).  Bounded: A2.3 rows = Eq. 2.9 and agree with A2.5 for degrees 1..5 (all knot vectors), "
+              "derivative rows sum to zero for degrees 1..6; degree 7 of the property's range 1..7 for A2.3 is tied by the correspondence only. "
+              "Executed Q instance = image of the R instance by parametricity (transfer theorems).")
+TECHNIQUE = "Coq proof (induction over degree / list structure, field on symbolic knot windows + window locality) on a Gallina model + vm_compute correspondence with the implementation"
 
 
 class Span(Family):
